@@ -1575,6 +1575,71 @@ def main_ls(write=True):
     return _regen(translate_least_squares, GEN_LS, SNAP_LS, write)
 
 
+HEADER_REGION = """/-
+  GENERATED by harness/py2lean.py from the source text of /repo on every check run — do not edit.
+  `maxabs` (utils.py), `project_region` (projections.py), `scatter_points` (coordinates.py): PINNED translations (every statement must still
+  unparse to the form the Lean text was written from; otherwise nothing is emitted and the tie degrades to the correspondence).
+  Contracts: `RandomState.uniform(lo, hi, size)` = `lo + (hi - lo) * u` for the drawn variates `u` (inputs here); `np.nanmin/nanmax` on
+  NaN-free arrays = min/max; `projection` is applied element-wise.  Props/C13.lean proves them equal to the model.
+-/
+import VerdeModel.Model.Coords
+namespace Verde.Gen
+open Verde
+
+"""
+GEN_REGION = os.path.join(VERIF, "lean", "VerdeModel", "Gen", "Region.lean")
+SNAP_REGION = os.path.join(VERIF, "lean", "VerdeModel", "GenSnapshot", "Region.lean.txt")
+
+PINNED_REGION = {
+    ("verde/utils.py", "maxabs"): (
+        ["arrays = [np.atleast_1d(i) for i in args]", "if nan:\n    npmin, npmax = (np.nanmin, np.nanmax)\nelse:\n    npmin, npmax = (np.min, np.max)",
+         "absolute = [npmax(np.abs([npmin(i), npmax(i)])) for i in arrays]", "return npmax(absolute)"],
+        "def maxabs (args : List (List Rat)) : Option Rat :=\n"
+        "  let arrays := args      -- [np.atleast_1d(i) for i in args]\n"
+        "  if arrays.any (·.isEmpty) then none else      -- (min/max of an empty array: ValueError)\n"
+        "  let absolute := arrays.map fun i => ratMax (ratAbs ((listMin i).getD 0)) (ratAbs ((listMax i).getD 0))      -- [npmax(np.abs([npmin(i), npmax(i)])) for i in arrays]\n"
+        "  listMax absolute      -- npmax(absolute)\n"),
+    ("verde/projections.py", "project_region"): (
+        ["east, north = grid_coordinates(region, shape=(101, 101))", "east, north = projection(east.ravel(), north.ravel())",
+         "return (east.min(), east.max(), north.min(), north.max())"],
+        "def projectRegion (region : List Rat) (projection : Rat × Rat → Rat × Rat) : Except Err (Option Rat × Option Rat × Option Rat × Option Rat) := do\n"
+        "  let (east1, north1) ← gridLines region ⟨some (101, 101), none, .spacing, false⟩      -- grid_coordinates(region, shape=(101, 101)): the meshgrid of these lines\n"
+        "  let nodes := north1.flatMap fun y => east1.map fun x => (x, y)      -- (east.ravel(), north.ravel()): row-major nodes\n"
+        "  let east := nodes.map fun p => (projection p).1      -- east, north = projection(east.ravel(), north.ravel())\n"
+        "  let north := nodes.map fun p => (projection p).2\n"
+        "  return (listMin east, listMax east, listMin north, listMax north)      -- (east.min(), east.max(), north.min(), north.max())\n"),
+    ("verde/coordinates.py", "scatter_points"): (
+        ["check_region(region)", "random = check_random_state(random_state)", "coordinates = []",
+         "for lower, upper in np.array(region).reshape((len(region) // 2, 2)):\n    coordinates.append(random.uniform(lower, upper, size))",
+         "if extra_coords is not None:\n    for value in np.atleast_1d(extra_coords):\n        coordinates.append(np.ones_like(coordinates[0]) * value)",
+         "return tuple(coordinates)"],
+        "def scatterPoints (region : List Rat) (variates : List (List Rat)) (extra_coords : List Rat) : Except Err (List (List Rat)) := do\n"
+        "  let r ← checkRegion region      -- check_region(region)\n"
+        "  let pairs := [(r.w, r.e), (r.s, r.n)]      -- np.array(region).reshape((len(region) // 2, 2)): (W, E), (S, N)\n"
+        "  let coordinates := (pairs.zip variates).map fun ((lower, upper), u) => u.map fun v => lower + (upper - lower) * v      -- random.uniform(lower, upper, size), one draw per pair, in order\n"
+        "  let coordinates := coordinates ++ extra_coords.map fun value => (coordinates.headD []).map fun _ => value      -- np.ones_like(coordinates[0]) * value\n"
+        "  return coordinates\n"),
+}
+
+
+def translate_region():
+    out = []
+    for (path, name), (table, lean) in PINNED_REGION.items():
+        src = open(os.path.join(REPO, path)).read()
+        fn = find_func(ast.parse(src), name)
+        body = [ast.unparse(x) for x in fn.body if not (isinstance(x, ast.Expr) and isinstance(x.value, ast.Constant))]
+        if body != table:
+            k = next((i for i, (a, b) in enumerate(zip(body, table)) if a != b), min(len(body), len(table)))
+            raise Untranslatable(f"{name}: statement {k} is no longer the pinned form: {(body + ['<missing>'])[k][:120]!r}")
+        seg = ast.get_source_segment(src, fn)
+        out.append(f"/-- pinned translation of {path}:{fn.lineno}-{fn.end_lineno} ({name}), sha256 {hashlib.sha256(seg.encode()).hexdigest()[:16]} -/\n" + lean)
+    return HEADER_REGION + "\n".join(out) + "\nend Verde.Gen\n"
+
+
+def main_region(write=True):
+    return _regen(translate_region, GEN_REGION, SNAP_REGION, write)
+
+
 HEADER_TREND = """/-
   GENERATED by harness/py2lean.py from the source text of /repo on every check run — do not edit.
   `polynomial_power_combinations` (trend.py); Props/C03.lean proves it equal to the model's explicit monomial order.
@@ -1723,7 +1788,10 @@ def _regen(gen_fn, gen_path, snap_path, write=True):
 
 
 def main_coords(write=True):
-    return _regen(generate_coords, GEN_COORDS, SNAP_COORDS, write)
+    st1, d1 = _regen(generate_coords, GEN_COORDS, SNAP_COORDS, write)
+    st2, d2 = main_region(write)
+    order = ["untranslatable", "changed", "ok"]
+    return min((st1, st2), key=order.index), "; ".join(x for x in (d1, d2) if x)
 
 
 # ============================================================================= array-elementwise translation (variance_to_weights)
